@@ -792,6 +792,37 @@ def r178(facts, res):
         n += 1
         if p.end == ('loop', h):
             bad = p
+    # R17.10 the work stack is LIFO (`pop`): on a deferring round the frame of the rule met must be pushed LAST (it is expanded
+    # next), the continuation of the current production before it
+    order_bad = None
+    n_order = 0
+    for p in w.paths if hasattr(w, 'paths') else []:
+        evs = [e for e in p.events if e[0] == 'call' and any(e[1] == pb for pb, _ in pushes)]
+        if len(evs) != 2:
+            continue
+
+        def kind(e):
+            t = e[3][1] if len(e[3]) > 1 else None
+            if not (isinstance(t, tuple) and t and t[0] == 'tuple' and t[1]):
+                return None
+            first = t[1][0]
+            # the nested frame names the rule symbol just met (the payload of the symbol's Rule variant); the continuation names
+            # the production of the frame that was popped
+            if term_has(first, lambda x: isinstance(x, tuple) and len(x) > 3 and x[0] == 'downcast' and x[3] == 'Rule'):
+                return 'nested'
+            return 'cont'
+        ks = [kind(e) for e in evs]
+        if None in ks or set(ks) != {'nested', 'cont'}:
+            continue
+        n_order += 1
+        if ks != ['cont', 'nested']:
+            order_bad = evs
+    if n_order:
+        if order_bad is not None:
+            res.bad('R17.10', 'nested-frame-on-top', loc_of(b, order_bad[0][1]), 'the work stack is popped from the end, but the frame of the rule just met is pushed BEFORE the continuation of the current '
+                    'production: the rest of the production is emitted before the rule\'s own text (`S: \'a\' B \'c\'` gives a c b)', {'function': b.path})
+        else:
+            res.ok('R17.10', 'nested-frame-on-top', loc_of(b, h), 'on the %d deferring rounds the continuation is pushed first and the frame of the rule met last (it is expanded next)' % n_order)
     if not n:
         res.lost(R, 'no round of the symbol loop defers work')
     elif bad is not None:
